@@ -22,6 +22,7 @@ func main() {
 		vlib.Group{Name: "dbdsqr-special", Gen: genDbdsqrSpecial},
 		vlib.Group{Name: "dgehrd", Gen: genDgehrd},
 		vlib.Group{Name: "dhseqr", Gen: genDhseqr},
+		vlib.Group{Name: "dhseqr-noconv", Gen: genDhseqrNoConv},
 		vlib.Group{Name: "dgeev", Gen: genDgeev},
 		vlib.Group{Name: "dtrexc", Gen: genDtrexc},
 		vlib.Group{Name: "dlaexc", Gen: genDlaexc},
